@@ -100,6 +100,8 @@ def gen_plan(rng, run_index, tier, opts):
     env.unicode_names = rng.random() < 0.2
     env.special_floats = rng.random() < 0.3
     env.date_names = rng.random() < 0.08
+    r_ = rng.random()
+    env.odd_names = "case" if r_ < 0.07 else ("blanks" if r_ < 0.14 else None)
     if rng.random() < 0.25:
         env.arr_T = -1          # set to the step count of the home grid below: parameters as plain per-step arrays
     if rng.random() < 0.12:
@@ -184,6 +186,10 @@ def gen_plan(rng, run_index, tier, opts):
                         steps.append({"op": "hist", "call": "to_json"})
                 steps.append(st_)
         path = rng.choice(["string", "file", "file"])
+        if gen > 0 and rng.random() < 0.35:
+            # one number changed by assignment, then saved again under the same name: the file must hold the new object
+            steps.append({"op": "hist", "call": "set_attr", "idx": rng.randrange(12), "attr": rng.choice(["wacc", "cost_in", "cost_out", "costs_const", "fix_costs", "wacc"])})
+            path = "file"
         st = {"op": "save", "path": path}
         if path == "file":
             r = rng.random()
